@@ -113,6 +113,51 @@ def sa_direction(c):
     return {"sa_direction_cases": len(recs), "sa_direction_violations": n}
 
 
+def list_filter(c, methods_tla):
+    """C16: ListNamespaces through the assembled inbound server returns only allowed namespaces (Pipeline!ListWant)."""
+    cases = []
+
+    def on_case(line):
+        try:
+            d = json.loads(line)
+            if isinstance(d, str):
+                d = json.loads(d)
+            cases.append(d)
+        except ValueError:
+            pass
+    c.tlc("Pipeline", "PipelineCases", "cases_list.cfg", workers=1, timeout=300, line_cb=on_case, files={"MethodsGen.tla": methods_tla}, name="cases-list")
+    if len(cases) != 124:
+        raise Broken("ListNamespaces case enumeration failed (%d)" % len(cases))
+    cases.sort(key=lambda d: (d["transport"], d["mapping"], len(d["shape"]), d["shape"]))
+    for i, d in enumerate(cases):
+        d["id"] = i + 1
+    inp = os.path.join(c.scratch, "list-in.ndjson")
+    with open(inp, "w") as f:
+        for d in cases:
+            f.write(json.dumps(d) + "\n")
+    outp = os.path.join(c.scratch, "list-out.ndjson")
+    rc, txt = c.go_test("proxy", HARNESS, "^TestVerifPipelineList$", env={"VERIF_IN": inp, "VERIF_OUT": outp}, timeout=600, name="list")
+    if rc != 0 or not os.path.exists(outp):
+        raise Broken("ListNamespaces probe failed: " + txt[-1500:])
+    recs = [json.loads(l) for l in open(outp)]
+    if len(recs) != len(cases):
+        raise Broken("ListNamespaces probe returned %d of %d records" % (len(recs), len(cases)))
+    ro = c.tlc("Pipeline", "PipelineObs", "obs.cfg", workers=1, timeout=600,
+               files={"trace.ndjson": "\n".join(json.dumps(r) for r in recs) + "\n", "MethodsGen.tla": methods_tla}, name="obs-list")
+    t = open(ro.out).read()
+    m = re.search(r'<<\s*"OBS_VIOLATIONS",\s*(\{.*?\})\s*>>\s*\n<<\s*"OBS_TRACE_LEN"', t, re.S)
+    if not m or not ro.ok:
+        raise Broken("PipelineObs (list) did not report: " + ro.error_text[-800:])
+    n = 0
+    for g in OBS_RE.finditer(m.group(1)):
+        r = recs[int(g.group(1)) - 1]
+        n += 1
+        if n == 1:
+            c.violation({"module": "Pipeline", "clause": "list"}, "ListNamespaces page %s -> caller got %s (%s)" % (r["case"]["shape"], r["names"], r["err"]),
+                        {"kind": "list-filter", "record": r})
+    return {"list_cases": len(recs), "list_violations": n}
+
+
 def run(c, a):
     c.assumptions += [
         "the local and remote clusters are generic fakes (grpc.Server with an UnknownServiceHandler on the real generated types)",
@@ -197,7 +242,7 @@ def run(c, a):
                     continue
                 for val in ("ns-allowed", "ns-forbidden", "ns-remote-ok", "ns-remote-bad"):
                     for bypass in (False, True):
-                        for variant in (("", "tail") if "events" in o["path"] else ("",)):
+                        for variant in (("", "tail") if "events" in o["path"] else ("",)) + (("json",) if o["inblob"] else ()):
                             d = dict(o)
                             d.update(mode="acl", value=val, bypass=bypass, variant=variant, id=len(acl) + 1)
                             acl.append(d)
@@ -213,6 +258,7 @@ def run(c, a):
                     c.violation({"module": "SchemaWalk", "clause": "acl", "cause": cz, "detail": detail},
                                 "acl (%s: %s): %s" % (cz, detail, json.dumps(rec)[:400]), {"kind": "acl-obligation", "record": rec})
             extra.update({"acl_obligations": len(acl), "acl_violations_by_cause": {"%s/%s" % k: v for k, v in causes.items()}})
+            extra.update(list_filter(c, methods_tla))
         else:
             orecs = p_schema.run_obligations(c, obligs, "tr")
             viols = p_schema.judge(c, orecs, "tr")
